@@ -65,7 +65,7 @@ type c06Case struct {
 }
 
 const (
-	c06PhaseTimeout = 2 * time.Second
+	c06PhaseTimeout = 4 * time.Second
 	c06Kickoff      = 1 * time.Second
 	c06MaxNodes     = 8
 )
@@ -402,6 +402,7 @@ func c06RunCase(run *vfRun, base string, c c06Case) {
 	}
 	nw.maxLatNs.Store(0)
 	nw.resetLag()
+	nw.resetTiming()
 	if err := leader.cmdExecute(); err != nil {
 		run.Inconclusive("execute refused: " + err.Error())
 		return
@@ -494,6 +495,7 @@ func c06RunCase(run *vfRun, base string, c c06Case) {
 		}
 		nw.maxLatNs.Store(0)
 		nw.resetLag()
+		nw.resetTiming()
 		if err := rleader.cmdExecute(); err != nil {
 			run.Inconclusive("reshare execute refused: " + err.Error())
 			return
@@ -612,7 +614,27 @@ func (x *c06Ctx) waitAndCheck(participants []*vfdNode, exp c06Expect, prev *key.
 		run.Inconclusive(fmt.Sprintf("case %d epoch %d: a bundle took %v (phase timeout %v): synchrony assumption not met on this box", x.c.Index, x.epoch, lat, c06PhaseTimeout))
 		return nil, false
 	}
-	if lag := x.net.lag(); lag > 300*time.Millisecond && (nFailed > 0 || len(views[0].state.FinalGroup.Nodes) != len(participants)) {
+	// ... measured per bundle against the schedule of the node it was handed to: a node that got the execute packet
+	// at e starts at max(kick-off, e) at the earliest and closes its k-th phase k time-outs later; a bundle handed
+	// over later than that (minus a margin for a select loop that was not scheduled in time) is a schedule outside
+	// the synchronous model, and agreement is not owed
+	margin := 300*time.Millisecond + 2*x.net.lag()
+	var addrs []string
+	for _, nd := range participants {
+		addrs = append(addrs, nd.addr)
+	}
+	if late := x.net.synchronyKept(addrs, "", c06PhaseTimeout, margin); late != "" {
+		run.Count("epochs_outside_the_synchronous_model", 1)
+		run.Inconclusive(fmt.Sprintf("case %d epoch %d: %s: synchrony assumption not met", x.c.Index, x.epoch, late))
+		return nil, false
+	}
+	evicted := nFailed > 0
+	for _, v := range views {
+		if v.state.FinalGroup != nil && len(v.state.FinalGroup.Nodes) != len(participants) {
+			evicted = true
+		}
+	}
+	if lag := x.net.lag(); lag > 300*time.Millisecond && evicted {
 		// somebody failed or was evicted while timers on this box came back that late: kick-off and phase ends were
 		// not kept, which is outside the protocol's assumptions
 		run.Inconclusive(fmt.Sprintf("case %d epoch %d: eviction/failure while the box was not keeping time (timer lag %v)", x.c.Index, x.epoch, lag))
@@ -629,6 +651,14 @@ func (x *c06Ctx) waitAndCheck(participants []*vfdNode, exp c06Expect, prev *key.
 		states[i] = v.state
 	}
 	return states, true
+}
+
+// c06Round: the beacon round current at unix second t (harness arithmetic, independent of package common).
+func c06Round(t int64, period time.Duration, genesis int64) int64 {
+	if t < genesis {
+		return 0
+	}
+	return (t-genesis)/int64(period/time.Second) + 1
 }
 
 func c06Points(g *key.Group) [][]byte {
@@ -731,11 +761,7 @@ func (x *c06Ctx) oracle(views []c06NodeView, participants []*vfdNode, exp c06Exp
 			}
 			variant := "other"
 			ps := int64(exp.period / time.Second)
-			// what was observed: the instant at which each node's SaveFinished of this epoch returned (store tap),
-			// as beacon rounds. The real code samples time.Now() a moment BEFORE that write; "same round" is
-			// only claimed when every completion lies >= 300 ms inside one and the same round and the box kept time.
 			tts, rounds, offs := map[string]int64{}, map[string]int64{}, map[string]int64{}
-			sameRound, solid, first := true, true, int64(-1)
 			for _, w := range views {
 				tts[w.nd.addr] = w.state.FinalGroup.TransitionTime
 				var at time.Time
@@ -743,30 +769,13 @@ func (x *c06Ctx) oracle(views []c06NodeView, participants []*vfdNode, exp c06Exp
 					at = w.nd.tap.finishedAt(x.epoch)
 				}
 				if at.IsZero() || ps <= 0 {
-					solid = false
 					continue
 				}
 				since := at.Sub(time.Unix(exp.genesis, 0))
-				r := int64(since / exp.period)
-				off := int64((since % exp.period) / time.Millisecond)
-				rounds[w.nd.addr], offs[w.nd.addr] = r+1, off
-				if first < 0 {
-					first = r
-				} else if r != first {
-					sameRound = false
-				}
-				if since < 0 || off < 300 {
-					solid = false
-				}
-			}
-			if x.net.lag() > 150*time.Millisecond {
-				solid = false
+				rounds[w.nd.addr], offs[w.nd.addr] = int64(since/exp.period)+1, int64((since%exp.period)/time.Millisecond)
 			}
 			if x.epoch > 1 && ps > 0 && d%ps == 0 {
 				variant = "completion-straddles-round-boundary"
-				if sameRound && solid {
-					variant = "completions-in-same-round"
-				}
 			}
 			run.Violation("C06/transition-time-disagrees/"+variant,
 				fmt.Sprintf("epoch %d (%s, period %v): nodes completed the same epoch with transition times %d (%s) and %d (%s); group hashes %x / %x; completion rounds %v (ms into the round %v)",
@@ -780,6 +789,38 @@ func (x *c06Ctx) oracle(views []c06NodeView, participants []*vfdNode, exp c06Exp
 			if !(ttDiff && bytes.Equal(ha, c06HashWithTT(g, rg.TransitionTime))) {
 				run.Violation("C06/group-disagrees/hash/"+phase,
 					fmt.Sprintf("epoch %d: group hash %x at %s, %x at %s", x.epoch, ha, ref.nd.addr, hb, v.nd.addr), x.info(nil))
+			}
+		}
+	}
+	// ---------- (1b) each node's transition time is "10 rounds after the round in which its protocol run ended":
+	// the instant sampled by the real code lies between the first hand-over of a response bundle to that node (in
+	// fast-sync mode a node ends only after it has processed the responses of every other member of its final
+	// group) and the entry of its SaveFinished. Both bounds are observed at the boundary, so the verdict does not
+	// depend on how fast the box is.
+	if x.epoch > 1 && exp.period >= time.Second {
+		tm := x.net.timing()
+		for _, v := range views {
+			g := v.state.FinalGroup
+			if g == nil || len(g.Nodes) < 2 || v.nd.tap == nil {
+				continue
+			}
+			lo, okLo := tm.FirstRespIn[v.nd.addr]
+			hi := v.nd.tap.finishedEntered(x.epoch)
+			if !okLo || hi.IsZero() || g.TransitionTime <= exp.genesis {
+				continue
+			}
+			sampled := c06Round(g.TransitionTime, exp.period, exp.genesis) - 10
+			rLo := c06Round(lo.Unix(), exp.period, exp.genesis)
+			rHi := c06Round(hi.Unix(), exp.period, exp.genesis)
+			run.Count("transition_times_checked_against_completion_window", 1)
+			if sampled < rLo || sampled > rHi {
+				where := "before-the-run-could-have-ended"
+				if sampled > rHi {
+					where = "after-the-record-was-written"
+				}
+				run.Violation("C06/transition-time-not-from-completion-instant/"+where,
+					fmt.Sprintf("epoch %d node %s: transition time %d = round %d + 10, but its protocol run ended between rounds %d (first response bundle handed over) and %d (finished record about to be written)",
+						x.epoch, v.nd.addr, g.TransitionTime, sampled, rLo, rHi), x.info(nil))
 			}
 		}
 	}
